@@ -7,7 +7,7 @@ needs `&mut`; a binding handed out as `&mut` is declared `mut`.
 Whether rustc accepts the emitted crate is not decided.
 """
 from ..facts import callee, op_place, strip_generics
-from ..flow import Defs, backward_slice, slice_calls, forward_derived
+from ..flow import Defs, backward_slice, slice_calls, forward_derived, rv_operands
 from ..quote import chains, token_of, is_quote_call
 from ..tables import enum_switches, switch_arms, variant_table, guard_context
 from .compiler_common import PX, SINK
@@ -198,9 +198,37 @@ def r7_mut_binding(ctx):
     ctx.ob('C01.R7', 'mut-binding-marked', ok, b.loc(muts[0]), '`mut` is emitted in blocks %s; binding.mutable = true in blocks %s, dominating: %s' % (muts, sets, ok))
 
 
+def r8_rendered_crate_names(ctx):
+    ctx.rule('C01.R8', 'P9 sibling agreement: the five callable-path renderers of rustdoc_ir (free function, inherent method, trait method, struct '
+             'literal, enum variant) each obtain the crate prefix they write into generated code from the id -> name map of the generated '
+             'manifest (BiHashMap::get_by_left) and none of them formats its own `crate_name` field, which is the name used for diagnostics: '
+             'the two differ whenever a dependency is renamed because two versions of a crate are in use.')
+    n = 0
+    for b in ctx.fb.bodies('rustdoc_ir'):
+        if b.is_promoted or not b.nid.startswith('rustdoc_ir::callable_path::') or not b.nid.endswith('::render_path'):
+            continue
+        n += 1
+        bodies = ctx.fb.bodies_of_item('rustdoc_ir', b.nid)
+        lookup = any((callee(t) or '').endswith('BiHashMap::get_by_left') for x in bodies for _, t in x.calls())
+        raw = []
+        for x in bodies:
+            for bb, blk in enumerate(x.blocks):
+                for st in blk['st']:
+                    if 'rv' not in st:
+                        continue
+                    ops, pls = rv_operands(st['rv'])
+                    for q in pls + [op_place(o) for o in ops if op_place(o) is not None]:
+                        if 'f:crate_name' in q.get('p', []):
+                            raw.append(x.loc(bb, st))
+        ctx.ob('C01.R8', 'crate-prefix|%s' % b.nid.split('::')[-2], lookup and not raw, raw[0] if raw else b.loc(),
+               '%s::render_path looks the crate name up in the dependency map: %s; formats its own crate_name field: %s' % (b.nid.split('::')[-2], lookup, bool(raw)))
+    ctx.floor('C01.R8', 'callable path renderers', n, 5)
+
+
 def check(ctx):
     r1_typestate(ctx)
     r2_pipeline(ctx)
     r5_ownership_table(ctx)
     r6_reference_inputs(ctx)
     r7_mut_binding(ctx)
+    r8_rendered_crate_names(ctx)
